@@ -2621,6 +2621,11 @@ func (d *decoderBincBytes) swallow() {
 	d.d.nextValueBytes()
 }
 
+func (d *decoderBincBytes) readArrayStart() int {
+	halt.onerror(d.err)
+	return d.d.ReadArrayStart()
+}
+
 func (d *decoderBincBytes) nextValueBytes() []byte {
 	return d.d.nextValueBytes()
 }
@@ -6712,6 +6717,11 @@ func (d *decoderBincIO) Release() {}
 
 func (d *decoderBincIO) swallow() {
 	d.d.nextValueBytes()
+}
+
+func (d *decoderBincIO) readArrayStart() int {
+	halt.onerror(d.err)
+	return d.d.ReadArrayStart()
 }
 
 func (d *decoderBincIO) nextValueBytes() []byte {
